@@ -542,6 +542,10 @@ impl DeviceControl for ControlHandle {
                     return Err(zip_err("more than one files in zipped GenApi XML"));
                 }
                 let mut file = unwrap_or_log!(zip.by_index(0).map_err(zip_err));
+                // The only member must be a file, a directory entry holds no XML.
+                if file.is_dir() {
+                    return Err(zip_err("no file in zipped GenApi XML"));
+                }
                 // The size advertised in the zip directory comes from the device and can't be
                 // trusted, so the buffer is not preallocated from it.
                 let mut xml = Vec::new();
